@@ -881,12 +881,15 @@ def build_ops():
     ops = []
     binops = [("add", operator.add), ("sub", operator.sub), ("mul", operator.mul), ("floordiv", operator.floordiv),
               ("and", operator.and_), ("or", operator.or_), ("xor", operator.xor), ("mod", operator.mod),
-              ("truediv", operator.truediv), ("pow", operator.pow), ("lshift", operator.lshift)]
+              ("truediv", operator.truediv), ("pow", operator.pow), ("lshift", operator.lshift), ("rshift", operator.rshift),
+              ("divmod", divmod)]
     for nm, f in binops:
         ops.append(O("op:" + nm, lambda o, a, f=f: f(o, a), ("any",), [("get", "__%s__" % nm)]))
         ops.append(O("rop:" + nm, lambda o, a, f=f: f(a, o), ("value",), [("get", "__r%s__" % nm)]))
     for nm, f in [("iadd", operator.iadd), ("isub", operator.isub), ("imul", operator.imul), ("ior", operator.ior),
-                  ("iand", operator.iand), ("ixor", operator.ixor)]:
+                  ("iand", operator.iand), ("ixor", operator.ixor), ("itruediv", operator.itruediv),
+                  ("ifloordiv", operator.ifloordiv), ("imod", operator.imod), ("ipow", operator.ipow),
+                  ("ilshift", operator.ilshift), ("irshift", operator.irshift), ("imatmul", operator.imatmul)]:
         ops.append(O("iop:" + nm, lambda o, a, f=f: f(o, a), ("any",), [("get", "__%s__" % nm)]))
     ops.append(O("matmul", lambda o, a: operator.matmul(o, a), ("any",), [("get", "__matmul__")], kinds=["vec"]))
     for nm, f in [("neg", operator.neg), ("pos", operator.pos), ("abs", abs), ("invert", operator.invert)]:
@@ -910,6 +913,18 @@ def build_ops():
         O("hash-mutate-hash", lambda o: hash_mutate_hash(o), (), [("get", "__iadd__")], kinds=["vec", "pairs"]),
         O("dir", lambda o: tuple(sorted(dir(o))), (), []),
         O("format", lambda o: format(o, ""), (), [("get", "__format__")]),
+        # (not on a bytearray: int(bytearray) / float(bytearray) read the C-level buffer, which a proxy does not have)
+        O("conv:int", lambda o: int(o), (), [("get", "__int__")], kinds=[k for k in KINDS if k != "bytearray"]),
+        O("conv:float", lambda o: float(o), (), [("get", "__float__")], kinds=[k for k in KINDS if k != "bytearray"]),
+        O("conv:index", lambda o: operator.index(o), (), [("get", "__index__")]),
+        O("conv:round", lambda o: round(o), (), [("get", "__round__")]),
+        O("reversed", lambda o: tuple(reversed(o)), (), []),
+        O("next", lambda o: next(o), (), [("get", "__next__")]),
+        # a proxy is copied / pickled BY VALUE (HANDLE_PICKLE, where the configuration allows it): a local equal copy
+        # (not for the same-named Shape classes: they cannot be pickled by name at all)
+        O("copy", lambda o: __import__("copy").copy(o), (), [], kinds=[k for k in KINDS if not k.startswith("shape-")]),
+        O("pickle", lambda o: __import__("pickle").loads(__import__("pickle").dumps(o, 2)), (), [],
+          kinds=[k for k in KINDS if not k.startswith("shape-")]),
         O("isinstance", lambda o: (isinstance(o, list), isinstance(o, dict), isinstance(o, (set, bytearray)),
                                    isinstance(o, collections.deque), isinstance(o, Vec), isinstance(o, io.BytesIO),
                                    isinstance(o, object)), (), []),
@@ -1066,7 +1081,7 @@ class Twin(object):
             return ("tuple", [self.describe(x, via_proxy) for x in r])
         if via_proxy:
             if not self.sess.is_proxy(r):
-                return ("local-object", type(r).__name__)
+                return ("fresh", snap(r))        # a copy made by value on the caller's side (copy / pickle of a proxy)
             real = self.sess.behind(r)
             for k, (obj, tw) in enumerate(self.pairs):
                 if obj is real:
@@ -1197,6 +1212,9 @@ def config_allows(config_name, perm, name):
 
 
 def is_policy_denial(ex):
+    """refused by the connection's configuration: the attribute policy, or `allow_pickle` being off"""
+    if type(ex).__name__ == "ValueError" and bool(ex.args) and ex.args[0] == "pickling is disabled":
+        return True
     return type(ex).__name__ == "AttributeError" and bool(ex.args) and type(ex.args[0]) is str and ex.args[0].startswith("cannot access")
 
 
@@ -1398,7 +1416,13 @@ def run_sequence(kind, config_name, seed, seq, ops, stop_at_first=True, skip_sig
             # policy record (single-name operations on objects without hooks)
             if names is not None and len(names) == 1 and config_name in CONFIGS:
                 perm, nm = names[0]
-                if type(nm) is str and nm not in _netref.LOCAL_ATTRS:
+                dunder_template = spec.label.split(":")[0] in ("op", "rop", "iop", "unary", "conv", "next", "format", "matmul", "len",
+                                                              "contains", "getitem", "getitem-slice", "setitem", "setitem-slice",
+                                                              "delitem", "delitem-slice", "iterate", "iterate-partial", "buffiter",
+                                                              "with", "exit-falsy", "hash-mutate-hash")
+                if dunder_template and not safe_hasattr(type(tw.twin), nm):
+                    pass        # the target's type has no such special method: the proxy's type has none either, nothing is asked
+                elif type(nm) is str and nm not in _netref.LOCAL_ATTRS:
                     tobj = tw.twin if not label.startswith("cmp:") else type(tw.twin)
                     tw.policy_records.append((config_name, perm, nm, safe_hasattr(tobj, nm), safe_hasattr(tobj, "exposed_" + nm), denied, label))
             after = snap(tw.target)
@@ -1411,7 +1435,9 @@ def run_sequence(kind, config_name, seed, seq, ops, stop_at_first=True, skip_sig
                 if res_p != res_t:
                     problems.append((idx, label, "proxy gives %r, expected %r" % (res_p, res_t)))
             else:
-                if kind in ("set", "dict") and spec.label in ("repr", "str") and res_p[0] == "ok" and res_t[0] == "ok":
+                if spec.label in ("repr", "str", "format") and res_p[0] == "ok" and res_t[0] == "ok" and \
+                        (kind in ("set", "dict") or "102,114,111,122,101,110,115,101,116,40" in str(res_t[1]) or ",123," in str(res_t[1])):
+                    # (also: a frozenset / set / dict MEMBER of any container - "frozenset(" or "{" in the text)
                     # the text of a hash container lists its members in an order that depends on its history of
                     # collisions; members that went through the connection are equal, not identical
                     res_p, res_t = ("ok", sorted(str(res_p[1]))), ("ok", sorted(str(res_t[1])))
